@@ -1028,7 +1028,7 @@ def run(ck):
     # ---- subjects around and beyond MAX_COUNT bytes (unbounded repetition of simple atoms)
     lines = long_subject_lines(thorough)
     rn.run_x(lines, "long-subject", per=1)
-    ck.cov["long_subject"] = {"lines": len(lines), "lengths": LONG_QUICK + LONG_MORE,
+    ck.cov["long_subject"] = {"lines": len(lines), "lengths": (LONG_QUICK + LONG_MORE) if thorough else [32767, 32768],
                               "note": "simple-atom repetitions only (linear in reference and model); the refinement theorem "
                                       "covers |subject| < 32767, longer subjects are covered by this differential family only; "
                                       "a repeated GROUP is capped at 32767 iterations by the C code (assumption)"}
